@@ -31,8 +31,15 @@ SUBJECT_POOL = [
     "=?utf-8?b?" + base64.b64encode("\u65e5\u672c\u8a9e \\ \u30c6\u30b9\u30c8".encode("utf-8")).decode() + "?=",
     "=?utf-8?q?=E2=82=AC_100_=22quoted=22?= and ascii tail",
     "=?utf-8?b?" + base64.b64encode("\u0394\u03bf\u03ba\u03b9\u03bc\u03ae plain".encode("utf-8")).decode() + "?=",
+    # decoded text with characters that str.splitlines() treats as line ends (the stdlib header encoder splits on
+    # them and joins with LF): Unicode line/paragraph separators, NEL, VT, FF, FS/GS/RS -- beside non-latin-1 text
+    "=?utf-8?b?" + base64.b64encode("Meeting notes\u2028Tuesday \u2014 room 4".encode("utf-8")).decode() + "?=",
+    "=?utf-8?b?" + base64.b64encode("\u041f\u043b\u0430\u043d\u2029part two\x0bthree\x0cfour".encode("utf-8")).decode() + "?=",
+    "=?utf-8?b?" + base64.b64encode("\u20ac rates\x85next\x1cA\x1dB\x1eC".encode("utf-8")).decode() + "?=",
+    "=?iso-8859-1?q?caf=E9=85next_line?=",
 ]
-NAME_POOL = ["Alice Example", '"Quoted, Name"', "Back\\\\slash", '"With \\"inner\\" quotes"', "=?utf-8?q?J=C3=BCrgen?=", "", "O'Brien (comment)", "=?utf-8?b?" + base64.b64encode('\u0418\u0432\u0430\u043d "\u0412\u0430\u043d\u044f" \u041f'.encode("utf-8")).decode() + "?="]
+NAME_POOL = ["Alice Example", '"Quoted, Name"', "Back\\\\slash", '"With \\"inner\\" quotes"', "=?utf-8?q?J=C3=BCrgen?=", "", "O'Brien (comment)", "=?utf-8?b?" + base64.b64encode('\u0418\u0432\u0430\u043d "\u0412\u0430\u043d\u044f" \u041f'.encode("utf-8")).decode() + "?=",
+             "=?utf-8?b?" + base64.b64encode("\u5c71\u7530\u2028\u592a\u90ce".encode("utf-8")).decode() + "?="]
 ADDR_POOL = ["alice@example.com", "bob.smith@sub.example.org", "weird+tag@example.net", "local-only", "<>"]
 
 
